@@ -11,8 +11,6 @@ import (
 	"runtime/debug"
 	"strconv"
 
-	"golang.org/x/tools/go/ssa"
-
 	"verif/internal/kit"
 	"verif/internal/load"
 	"verif/internal/props"
@@ -49,8 +47,12 @@ func main() {
 			os.Exit(2)
 		}
 	}
-	prog, err := load.Load(*repo)
-	if err == nil && *genAnchors {
+	if *genAnchors {
+		prog, err := load.Load(*repo)
+		if err != nil {
+			fmt.Println(err)
+			os.Exit(2)
+		}
 		t := prog.BuildAnchors(kit.RawFuncID, kit.CallID)
 		b, _ := json.MarshalIndent(t, "", " ")
 		if werr := os.WriteFile(filepath.Join(*verif, "anchors.json"), b, 0o644); werr != nil {
@@ -60,26 +62,10 @@ func main() {
 		fmt.Printf("anchors.json: %d functions, %d structs\n", len(t.Funcs), len(t.Structs))
 		return
 	}
+	prog, err := prepare(*repo, *verif)
 	if err == nil {
-		anchorsPath := filepath.Join(*verif, "anchors.json")
-		if _, serr := os.Stat(anchorsPath); serr != nil {
-			exe, _ := os.Executable()
-			anchorsPath = filepath.Join(filepath.Dir(filepath.Dir(exe)), "anchors.json")
-		}
-		if t, aerr := load.ReadAnchors(anchorsPath); aerr == nil {
-			rn := prog.DetectRenames(t, kit.RawFuncID, kit.CallID)
-			prog.Renames = rn
-			for cur, canon := range rn.FuncToCanonical {
-				kit.Canonical[cur] = canon
-			}
-			byID := map[string]*ssa.Function{}
-			for _, f := range prog.OwnFunctions() {
-				byID[kit.FuncID(f)] = f
-			}
-			prog.FuncByID = func(id string) *ssa.Function { return byID[id] }
-			for _, n := range rn.Notes {
-				fmt.Println("rename followed:", n)
-			}
+		for _, n := range prog.Notes {
+			fmt.Println("note:", n)
 		}
 	}
 	code := 0
